@@ -1048,12 +1048,14 @@ func (s *SecureChannel) sendAsyncWithTimeout(
 
 	chunks, err := m.EncodeChunks(instance.maxBodySize)
 	if err != nil {
+		s.popHandler(reqID)
 		return nil, err
 	}
 
 	for i, chunk := range chunks {
 		select {
 		case <-ctx.Done():
+			s.popHandler(reqID)
 			return nil, ctx.Err()
 		default:
 		}
@@ -1064,6 +1066,7 @@ func (s *SecureChannel) sendAsyncWithTimeout(
 
 		chunk, err = instance.signAndEncrypt(m, chunk)
 		if err != nil {
+			s.popHandler(reqID)
 			return nil, err
 		}
 
@@ -1071,6 +1074,7 @@ func (s *SecureChannel) sendAsyncWithTimeout(
 		var n int
 		s.c.SetWriteDeadline(time.Now().Add(timeout))
 		if n, err = s.c.Write(chunk); err != nil {
+			s.popHandler(reqID)
 			return nil, err
 		}
 		s.c.SetWriteDeadline(time.Time{})
